@@ -4,20 +4,19 @@
 From Coq Require Import ZArith String List Bool.
 From JMCV Require Import Base.Dec MC.Syntax MC.Print Model.Names Model.PrivAlloc Model.IfElse Model.Loop Run.Common.
 From JMCV Require Model.Cond.
+From JMCV Require Import Model.CondLower.
 Import ListNotations.
 
 (* The (precommand lines, execute guards) pair of a condition is NOT predicted by the harness:
    it is what property C03's model of condition.py (Model.Cond.parse_condition, the function
-   the C03 theorems are about) returns for the formula the source text was printed from.
+   the C03 theorems are about) returns for the formula the source text was printed from:
+   Model.CondLower.cond_of_formula — the very definition the composition theorems
+   C04_chain_with_formulas / C05_*_with_formula (Props/C04.v, Props/C05.v) are stated about.
    wrapped = the compiler receives the round-bracket token (if / else if / while / do-while);
    false = the bare token list (the middle part of `for (..; ..; ..)`).
    A formula the model refuses yields a line no compiler output equals (none is generated). *)
 Definition lowc (nm : names) (wrapped : bool) (f : Cond.formula) : cond :=
-  let toks := Cond.tokens_of f in
-  match Cond.parse_condition nm (if wrapped then [Cond.TParen toks] else toks) with
-  | Some (pcs, cs) => mkCond pcs cs
-  | None => mkCond [COther "<condition refused by Model.Cond>"%string] []
-  end.
+  cond_or_refused nm wrapped f.
 
 (* One pack: its user functions in source order (name, body, text the real compiler wrote for it, or
    "<error>" when it refused the pack) and every private function the real compiler generated.
